@@ -419,3 +419,25 @@ Theorem C05_map2_nk_ok (H : list (oprec (mop (mop oop)))) :
   m2hist_ok_nk H -> forall (s : cmap (cmap orswot)) (K : gset nat), m2reach_nk H s K -> map2_nk_ok H K s = true.
 Proof. exact (map2_nk_ok_reach H). Qed.
 Print Assumptions C05_map2_nk_ok.
+
+(** Map<K, Orswot> WITH key removes and merges, in the fragment the known findings leave: members are added under keys and keys are removed (no nested remove: T3), and every key that some key remove names is updated at most once by each actor ([km_once]: T2 needs two updates of one actor): the value half of the property WITH merges - the member table under every key is the value-level specification, the member
+    sentence, both monitor deciders (proofs/MapOrswotKM.v) *)
+From Crdt Require Import model.Orswot model.Map spec.System spec.OrswotSpec spec.OrswotSystem spec.MapSpec spec.MapSystem spec.MapOrswotSpec spec.MapOrswotKM proofs.MapOrswotKM proofs.MapOrswotKMCor.
+Theorem C05_mapor_km_values_refine (H : list (oprec (mop oop))) :
+  mohist_ok_km H -> km_once H ->
+  forall (s : cmap orswot) (K : gset nat), moreach_km H s K -> forall k, mo_state_entries s k = mo_entries (known_ops H K) k.
+Proof. exact (mapor_values_refine_km H). Qed.
+Print Assumptions C05_mapor_km_values_refine.
+
+Theorem C05_mapor_km_member_sentence (H : list (oprec (mop oop))) :
+  mohist_ok_km H -> km_once H -> forall (s : cmap orswot) (K : gset nat) (k m : N), moreach_km H s K ->
+  (m ∈ dom (mo_state_entries s k) <->
+    exists d ms, MUp d k (OAdd d ms) ∈ known_ops H K /\ m ∈ ms /\
+      ~ exists c ks, MRm c ks ∈ known_ops H K /\ k ∈ ks /\ dcounter d <= vget c (dactor d)).
+Proof. exact (mapor_member_iff_km H). Qed.
+Print Assumptions C05_mapor_km_member_sentence.
+
+Theorem C05_mapor_km_ok (H : list (oprec (mop oop))) :
+  mohist_ok_km H -> km_once H -> forall (s : cmap orswot) (K : gset nat), moreach_km H s K -> mapor_km_ok H K s = true.
+Proof. exact (mapor_km_ok_reach H). Qed.
+Print Assumptions C05_mapor_km_ok.
